@@ -12,6 +12,7 @@ STD_ENUMS = {
     "Ordering": ["Less", "Equal", "Greater"],
     "Bound": ["Included", "Excluded", "Unbounded"],
     "Cow": ["Borrowed", "Owned"],
+    "ErrorKind": ["NotFound", "AlreadyExists", "UnexpectedEof", "InvalidData", "InvalidInput", "Other"],
 }
 
 
